@@ -844,6 +844,13 @@ def install_rel(eng, cfg):
         q.changes = r
         if stmt['k'] == 'insert': q.rowid = getattr(db, 'last_rowid', 0) & M64
         return SQLITE_DONE
+    def rel_select(st, sql):
+        """run a SELECT over the modelled store of state `st` (used by the independent readers of the checks); -> list of rows"""
+        q = st.env.get('sq')
+        if q is None or getattr(q, 'rel', None) is None: return []
+        stmt = parse_statement(sql)
+        return run_select(Ctx(st, q.rel, {}, sql), stmt, [])
+    eng.rel_select = rel_select
     cfg['execute'] = execute
     models_sqlite.install(eng, cfg)
     # transaction snapshots and state cloning of the relational store
